@@ -106,3 +106,443 @@ def concretise(case, n, rnd, quick):
             ms += LADDER_MS[name]
         return item, ms
     raise core.Machinery("unknown type %r in a model case" % ty)
+
+
+def mr_ms(bits):
+    """one certified Miller-Rabin round to base 2 on a number of that size"""
+    return chain_ms(bits, bits) + 50
+
+
+def deep_ms(item):
+    """extra cost of looking at the primality of a RETURNED key's primes more closely (deep = TRUE)"""
+    if item["ty"] == "rsa":
+        half = {"fix512": 256, "fix512r": 256, "fix768": 384, "gen1024": 512}[item["kid"]]
+        return 2 * mr_ms(half)
+    if item["ty"] == "dsa":
+        eb, pb = DSA_KIDS[item["kid"]]
+        return mr_ms(pb) + mr_ms(eb) if pb > 24 else 0
+    if item["ty"] == "elgamal":
+        return mr_ms(128 if item["kid"] == "eg128" else 256)
+    return 0
+
+
+# cases that are always recorded, whatever the seed: the shapes of the defects found during the design (F11, F18, F19) on every curve
+def anchors():
+    out = []
+    for name in NIST:
+        for form in ("construct:pub", "import:spki", "import:raw"):
+            out.append(("ws", form, ["neutral"], name))
+        for corr in (["x+p"], ["y+p"]):
+            out.append(("ws", "construct:pub", corr, name))
+            out.append(("ws", "construct:dQ", corr, name))
+    for corr in (["x+p"], ["y+p"]):
+        out.append(("ws", "import:spki", corr, "P-521"))
+    for name in ("Ed25519", "Ed448"):
+        for corr in (["x+p"], ["y+p"], ["(0,p+1)"]):
+            out.append(("ed", "construct:pub", corr, name))
+        out.append(("ed", "import:spki", ["(0,p+1)"], name))
+    for name in ("Curve25519", "Curve448"):
+        out.append(("mt", "construct:seedQ", ["u foreign"], name))
+        for corr in (["u=0"], ["u=p+1"], ["u+p"]):
+            out.append(("mt", "construct:pub", corr, name))
+    return out
+
+
+BUDGET_S = {   # estimated TLC seconds per type: (records without a long chain, records with one)
+    "quick": {"rsa": (85, 12), "dsa": (25, 55), "elgamal": (22, 0), "ws": (85, 30), "ed": (12, 70), "mt": (12, 70)},
+    "thorough": {"rsa": (1300, 600), "dsa": (300, 2400), "elgamal": (400, 0), "ws": (2200, 900), "ed": (150, 2300), "mt": (200, 2300)},
+}
+HEAVY_MS = 1500
+
+
+def plan_cases(cases, ctx, rnd):
+    """(items for `c05_keys.py cases`, statistics).  Every case with at most one corruption of the cheap kind is taken; the double ones and the
+    ones that need a long certified chain are sampled, by the seed, up to the budget of their type."""
+    quick = ctx.tier == "quick"
+    budget = {ty: [1000.0 * a, 1000.0 * b] for ty, (a, b) in BUDGET_S[ctx.tier].items()}
+    index = {}
+    for c in cases:
+        index[(c["ty"], c["base"], c["form"], tuple(c["corr"]))] = c
+    order = list(range(len(cases)))
+    rnd.shuffle(order)
+    order.sort(key=lambda i: min(len(cases[i]["corr"]), 2) >= 2)        # stable: no / one corruption first
+    items = []
+    stats = {"model_cases": len(cases), "taken": {}, "not_taken_for_budget": {}}
+    off = rnd.randrange(1 << 16)
+
+    def take(it, ms, ty, what):
+        it["cid"] = len(items) + 1
+        it["est"] = ms
+        items.append(it)
+        stats["taken"][what] = stats["taken"].get(what, 0) + 1
+
+    # anchors first (charged to the budgets)
+    for ty, form, corr, name in anchors():
+        base = {"ws": 1 if name == "P-521" or form.startswith("construct") else 2, "ed": 1, "mt": 1 if name == "Curve25519" else 2}[ty]
+        c = index.get((ty, base, form, tuple(corr)))
+        if c is None:
+            raise core.Machinery("the model has no case %r" % ((ty, base, form, corr),))
+        it, ms = concretise(c, off + len(items), rnd, quick)
+        it["kid"] = "%s/%s/%d" % (name, "short" if ty == "ws" else "seed", (off + len(items)) % 3)
+        if ty == "mt" and "seed" in form and c["why"] in ("", "scalar(seed)*G = u"):
+            ms = 60 + LADDER_MS[name]
+        it["anchor"] = True
+        budget[ty][1 if ms >= HEAVY_MS else 0] -= ms
+        take(it, ms, ty, "anchors")
+    deep_every = 23 if quick else 4
+    for pos, i in enumerate(order):
+        c = cases[i]
+        ty = c["ty"]
+        it, ms = concretise(c, off + pos, rnd, quick)
+        if len(c["corr"]) >= 2 and "wrong curve" in c["corr"] and c["corr"] != ["wrong curve", "wrong curve"]:
+            it["cls"] = ""          # the toy curves are not ordered like any pair of real curves: the model's class is not carried over
+        if c["cls"] == "key" and ty in ("rsa", "dsa", "elgamal") and (off + pos) % deep_every == 0 and (not quick or it["kid"] in ("fix512", "fix512r", "toy", "d512", "eg128")):
+            it["deep"] = True
+            ms += deep_ms(it)
+        b = 1 if ms >= HEAVY_MS else 0
+        if budget[ty][b] < ms:
+            k = "%s/%s" % (ty, "long chain" if b else "double corruption" if len(c["corr"]) >= 2 else "single corruption")
+            stats["not_taken_for_budget"][k] = stats["not_taken_for_budget"].get(k, 0) + 1
+            continue
+        budget[ty][b] -= ms
+        take(it, ms, ty, "%s/%d" % (ty, min(len(c["corr"]), 2)))
+    return items, stats
+
+
+def plan_generate(ctx, rnd, cid0):
+    quick = ctx.tier == "quick"
+    g = []
+    odd = 1025 + 2 * rnd.randrange(0, 30)
+    if quick:
+        g += [{"what": "rsa", "bits": 1024, "e": 65537, "deep": True}, {"what": "rsa", "bits": odd, "e": rnd.choice([3, 5, 17, 257])},
+              {"what": "rsa", "bits": rnd.choice([1024, 1088, 1280]), "e": rnd.choice([3, 65537, (1 << 32) + 1])},
+              {"what": "rsa", "bits": rnd.choice([512, 768, 1023]), "e": 65537}, {"what": "rsa", "bits": 1024, "e": rnd.choice([2, 4, 65536, 1, 0])}]
+        g += [{"what": "dsa", "bits": 1024}, {"what": "dsa", "bits": rnd.choice([512, 1000, 1088, 4096])},
+              {"what": "dsa-domain", "bits": 1024, "kid": "d1024", "corr": []}, {"what": "dsa-domain", "bits": 512, "kid": "d512", "corr": []},
+              {"what": "dsa-domain", "bits": 2048, "kid": "d1024", "corr": []},
+              {"what": "dsa-domain", "bits": 1024, "kid": "d1024", "corr": [rnd.choice(["g=1", "g=p-1", "g+p"])]},
+              {"what": "dsa-domain", "bits": 1024, "kid": "d1024", "corr": [rnd.choice(["q:=other prime", "q:=2q", "p+2q"])]}]
+        g += [{"what": "elgamal", "bits": rnd.choice([161, 168, 176, 184, 192])}]
+        big = rnd.choice(["P-384", "P-521"])
+        curves = ["P-192", "P-224", "P-256", big, "Ed25519", "Curve25519", rnd.choice(["Ed448", "Curve448"])]
+        g += [{"what": "ecc", "curve": c} for c in curves]
+    else:
+        for bits, e, deep in [(1024, 65537, True), (1024, 3, True), (1024, 65537, False), (odd, 65537, True), (1536, rnd.choice([3, 17, 65537]), False), (2048, 65537, True),
+                              (2048, 3, False), (3072, 65537, False), (1024, (1 << 64) + 1, False), (1023, 65537, False), (512, 65537, False), (1024, 2, False),
+                              (1024, 1, False), (1024, 65536, False), (2048, 0, False)]:
+            g.append({"what": "rsa", "bits": bits, "e": e, "deep": deep})
+        g += [{"what": "dsa", "bits": 1024, "deep": True}, {"what": "dsa", "bits": 1024}, {"what": "dsa", "bits": 2048}, {"what": "dsa", "bits": 3072}]
+        g += [{"what": "dsa", "bits": b} for b in (512, 1000, 1088, 4096, 0)]
+        g += [{"what": "dsa-domain", "bits": 1024, "kid": "d1024", "corr": [], "deep": True}, {"what": "dsa-domain", "bits": 2048, "kid": "d2048", "corr": []},
+              {"what": "dsa-domain", "bits": 512, "kid": "d512", "corr": []}, {"what": "dsa-domain", "bits": 2048, "kid": "d1024", "corr": []},
+              {"what": "dsa-domain", "bits": 1024, "kid": "toy", "corr": []}]
+        g += [{"what": "dsa-domain", "bits": 1024, "kid": "d1024", "corr": [c]} for c in ("g=1", "g=p-1", "g+p", "q:=other prime", "q:=2q", "p+2q", "p=0", "q=0")]
+        g += [{"what": "elgamal", "bits": b} for b in (rnd.choice([161, 176, 192]), 256, rnd.choice([224, 320, 384]))]
+        for c in NIST + ["Ed25519", "Ed448", "Curve25519", "Curve448"]:
+            g += [{"what": "ecc", "curve": c} for _ in range(1 if c in ("P-521", "Ed448", "Curve448") else 3)]
+    for i, it in enumerate(g):
+        it["cid"] = cid0 + i + 1
+    return g
+
+
+# ------------------------------------------------------------------------------------------ reading the records
+FAMILY = {"rsa": "RSA", "dsa": "DSA", "elgamal": "ElGamal"}
+CLASSES = [   # canonical failure classes (what known_findings.json entries match) for the clauses of trace/KeyTrace
+    (r"accepted components violating: the public (value|point) is the private scalar times G", "accepted mismatched private/public parts"),
+    (r"accepted components violating: the neutral element is not a public key", "accepted the neutral element (point at infinity) as a public key"),
+    (r"accepted components violating: (coordinates < p|y < p in the encoding)", "accepted a coordinate >= p (not smaller than the field prime, out of range)"),
+    (r"accepted components violating: the public value is not a point of small order.*", "accepted a listed low-order Montgomery point"),
+    (r"accepted components violating: the point satisfies the curve equation", "accepted a point off the curve"),
+    (r"raised (\w+) instead of ValueError.*", r"raised \1 instead of ValueError"),
+    (r"refused a valid key with (\w+)", r"refused a valid key with \1"),
+]
+
+
+def family_of(t):
+    if t["fam"] == "gen":
+        return "generate %s" % (t["curve"] if t["what"] == "ecc" else {"rsa": "RSA", "dsa": "DSA", "elgamal": "ElGamal"}[t["what"]])
+    if t["fam"] == "ec":
+        return t["curve"]
+    return FAMILY[t["fam"]]
+
+
+def vkey(t, clause):
+    import re
+    cls = clause
+    for pat, rep in CLASSES:
+        m = re.fullmatch(".*?(" + pat + ")", clause)
+        if m:
+            cls = re.sub(pat, rep, m.group(1))
+            break
+    if t["fam"] == "gen":
+        return "%s: %s" % (family_of(t), cls)
+    return "%s %s: %s" % (family_of(t), t["api"], cls)
+
+
+def unlimbs(ls):
+    v = 0
+    for i, x in enumerate(ls):
+        v |= x << (12 * i)
+    return v
+
+
+def sgn(x):
+    return -unlimbs(x["m"]) if x["s"] else unlimbs(x["m"])
+
+
+def brief(t):
+    """a record written out for a reader: the call and its outcome (numbers in hexadecimal)"""
+    d = {"family": family_of(t), "api": t["api"], "outcome": "key" if t["exc"] == "none" else t["exc"]}
+    if t["fam"] == "gen":
+        d["request"] = {k: (sgn(t[k]) if k == "e" else t[k]) for k in ("bits", "e", "curve", "hasdomain", "kid", "corr") if k in t}
+        d["tape_bytes_consumed"] = t["tape"]
+    else:
+        d.update({"form": t["form"], "variant": t["variant"], "base_key": t["kid"], "corruptions": t["corr"], "model_class": t["cls"], "model_failed_step": t["mwhy"]})
+        d["offered"] = {k: hex(sgn(v)) for k, v in t["off"].items()
+                        if (t["fam"] != "ec" or (k == "d" and t["hasd"]) or (k in "xy" and t["hasq"] and not (k == "y" and t["kind"] == "mt")))}
+        if t["fam"] == "ec" and t["hasseed"]:
+            d["offered"]["seed"] = bytes(t["seed"]).hex()
+    if t["exc"] == "none":
+        d["returned"] = {k: (hex(unlimbs(v)) if isinstance(v, list) and k != "seed" else bytes(v).hex() if k == "seed" else v) for k, v in t["key"].items()}
+    return d
+
+
+def identity(t):
+    """what makes a record distinct"""
+    if t["fam"] == "gen":
+        return ["gen", t["what"], t.get("bits"), t.get("e"), t.get("curve"), t.get("kid"), t.get("corr"), t["key"]]
+    return [t["fam"], t.get("curve"), t["kid"], t["form"], t["variant"], t["off"], t.get("seed"), t.get("par"), t.get("junk")]
+
+
+SAMPLES = [("rsa import refused", lambda t: t["fam"] == "rsa" and t["api"] == "import_key" and t["exc"] == "ValueError" and len(t["corr"]) == 1),
+           ("rsa construct key", lambda t: t["fam"] == "rsa" and t["form"] == "construct:ned" and t["exc"] == "none"),
+           ("dsa", lambda t: t["fam"] == "dsa" and t["kid"] != "toy" and t["hasx"] and t["exc"] == "ValueError" and t["corr"]),
+           ("weierstrass", lambda t: t["fam"] == "ec" and t["kind"] == "ws" and t["hasd"] and t["hasq"] and t["exc"] == "none"),
+           ("edwards", lambda t: t["fam"] == "ec" and t["kind"] == "ed" and t["enc"] == "rfc8032" and t["corr"]),
+           ("montgomery", lambda t: t["fam"] == "ec" and t["kind"] == "mt" and t["hasseed"] and t["hasq"] and t["exc"] == "ValueError"),
+           ("generate rsa", lambda t: t["fam"] == "gen" and t["what"] == "rsa" and t["exc"] == "none"),
+           ("generate ecc", lambda t: t["fam"] == "gen" and t["what"] == "ecc")]
+
+
+def pred_ok(pred, t):
+    try:
+        return bool(pred(t))
+    except (KeyError, IndexError, TypeError):
+        return False
+
+
+def flip(ls):
+    """one bit of a number given as limbs (the lowest bit of the lowest limb; the number stays canonical unless it was 1)"""
+    return [ls[0] ^ (1 if len(ls) > 1 or ls[0] > 1 else 2)] + ls[1:]
+
+
+def binding_checks(quick):
+    """[predicate on an accepted record, corruption, family].  Every family of records gets a falsified returned component and a flipped outcome."""
+    w = []
+
+    def check(pred, corrupt, family):
+        w.append([pred, corrupt, family, None])
+
+    def setk(field):
+        def f(t):
+            t["key"][field] = flip(t["key"][field])
+            return t
+        return f
+
+    def outcome(exc):
+        def f(t):
+            t["exc"] = exc
+            return t
+        return f
+
+    def bits_plus_one(t):
+        t["bits"] += 1
+        return t
+
+    def mid_link(t):
+        ls = t["links"]
+        ls[len(ls) // 2]["r"]["x"] = flip(ls[len(ls) // 2]["r"]["x"])
+        return t
+
+    def swap_quotient(t):
+        t["kw"]["k"] = flip(t["kw"]["k"])
+        return t
+    key = lambda t: t["exc"] == "none" and t["cls"] in ("key", "")      # noqa: E731
+    refused = lambda t: t["exc"] == "ValueError" and t["cls"] == "ValueError" and len(t["corr"]) == 1   # noqa: E731
+    cheap = lambda t: t["cost"] < (3000 if quick else 9000)   # noqa: E731
+    check(lambda t: t["fam"] == "rsa" and t["api"] == "construct" and t["has"]["pq"] and key(t) and not t["deep"], setk("d"), "RSA construct: one bit of the returned d")
+    check(lambda t: t["fam"] == "rsa" and t["api"] == "construct" and t["has"]["d"] and not t["has"]["pq"] and key(t) and not t["deep"], setk("p"),
+          "RSA construct (n, e, d): one bit of the recovered factor p")
+    check(lambda t: t["fam"] == "rsa" and t["api"] == "construct" and t["has"]["pq"] and refused(t), outcome("none"), "RSA construct: ValueError -> key")
+    check(lambda t: t["fam"] == "rsa" and t["api"] == "import_key" and t["has"]["crt"] and key(t) and not t["deep"], setk("dq"), "RSA import_key: one bit of the returned dq (CRT)")
+    check(lambda t: t["fam"] == "rsa" and t["api"] == "import_key" and not t["has"]["d"] and key(t), outcome("ValueError"), "RSA import_key (public): key -> ValueError")
+    check(lambda t: t["fam"] == "rsa" and t["api"] == "import_key" and t["has"]["crt"] and refused(t), outcome("none"), "RSA import_key: ValueError -> key")
+    check(lambda t: t["fam"] == "dsa" and t["hasx"] and key(t) and cheap(t) and t["kid"] != "toy" and not t["deep"], setk("y"), "DSA: one bit of the returned y")
+    check(lambda t: t["fam"] == "dsa" and t["hasx"] and refused(t) and cheap(t) and t["kid"] != "toy" and t["mwhy"] == "g^x = y mod p", outcome("none"),
+          "DSA: mismatched x / y: ValueError -> key")
+    check(lambda t: t["fam"] == "dsa" and t["api"] == "import_key" and key(t) and cheap(t), outcome("ValueError"), "DSA import_key: key -> ValueError")
+    check(lambda t: t["fam"] == "elgamal" and t["hasx"] and key(t), setk("x"), "ElGamal: one bit of the returned x")
+    check(lambda t: t["fam"] == "elgamal" and refused(t) and t["mwhy"] == "p prime", outcome("none"), "ElGamal: composite modulus: ValueError -> key")
+    ws = lambda t: t["fam"] == "ec" and t["kind"] == "ws"   # noqa: E731
+    check(lambda t: ws(t) and t["hasd"] and not t["hasq"] and key(t) and cheap(t) and len(t["links"]) > 4, setk("x"), "Weierstrass (%(curve)s) from d: one bit of the returned point")
+    check(lambda t: ws(t) and t["hasd"] and not t["hasq"] and key(t) and cheap(t) and len(t["links"]) > 4, mid_link,
+          "Weierstrass (%(curve)s) from d: one bit of an intermediate multiple of the untrusted chain")
+    check(lambda t: ws(t) and t["api"] == "import_key" and t["hasq"] and refused(t) and t["mwhy"] == "curve equation", outcome("none"),
+          "Weierstrass (%(curve)s) import_key: point off the curve: ValueError -> key")
+    check(lambda t: ws(t) and not t["hasd"] and t["corr"] == ["neutral"] and t["exc"] == "ValueError", outcome("none"), "Weierstrass (%(curve)s): neutral element: ValueError -> key (F18)")
+    check(lambda t: ws(t) and t["api"] == "construct" and t["corr"] in (["x+p"], ["y+p"]) and t["exc"] == "ValueError", outcome("none"),
+          "Weierstrass (%(curve)s) construct: coordinate >= p: ValueError -> key (F19)")
+    check(lambda t: ws(t) and t["hasd"] and t["hasq"] and key(t) and cheap(t), outcome("ValueError"), "Weierstrass (%(curve)s) with d and Q: key -> ValueError")
+    ed = lambda t: t["fam"] == "ec" and t["kind"] == "ed"   # noqa: E731
+    check(lambda t: ed(t) and t["enc"] == "rfc8032" and key(t), setk("x"), "Edwards (%(curve)s) import_key: one bit of the decoded x")
+    check(lambda t: ed(t) and t["api"] == "construct" and t["corr"] in (["x+p"], ["y+p"]) and t["exc"] == "ValueError", outcome("none"),
+          "Edwards (%(curve)s) construct: coordinate >= p: ValueError -> key (F19)")
+    check(lambda t: ed(t) and t["hasseed"] and not t["hasq"] and key(t) and t["curve"] == "Ed25519", setk("y"), "Edwards (Ed25519) from a seed: one bit of the returned point")
+    check(lambda t: ed(t) and t["hasseed"] and not t["hasq"] and key(t) and t["curve"] == "Ed25519", setk("d"), "Edwards (Ed25519) from a seed: one bit of the clamped scalar")
+    mt = lambda t: t["fam"] == "ec" and t["kind"] == "mt"   # noqa: E731
+    check(lambda t: mt(t) and not t["hasseed"] and key(t), setk("x"), "Montgomery (%(curve)s) public: one bit of the returned u")
+    check(lambda t: mt(t) and not t["hasseed"] and t["exc"] == "ValueError" and t["mwhy"] == "not a point of small order", outcome("none"),
+          "Montgomery (%(curve)s): low-order point: ValueError -> key")
+    check(lambda t: mt(t) and t["corr"] == ["u foreign"] and t["form"] == "construct:seedQ" and t["exc"] == "ValueError" and t["curve"] == "Curve25519", outcome("none"),
+          "Montgomery (Curve25519) seed with a foreign u: ValueError -> key (F11)")
+    gen = lambda t: t["fam"] == "gen" and t["exc"] == "none"   # noqa: E731
+    check(lambda t: gen(t) and t["what"] == "rsa" and not t["deep"], bits_plus_one, "generate RSA: a key one bit shorter than requested")
+    check(lambda t: gen(t) and t["what"] == "rsa" and not t["deep"], swap_quotient, "generate RSA: a wrong untrusted quotient of e*d by lcm(p-1, q-1)")
+    check(lambda t: gen(t) and t["what"] == "rsa" and not t["deep"], setk("u"), "generate RSA: one bit of the returned u")
+    check(lambda t: gen(t) and t["what"] == "dsa" and not t["deep"] and not t["hasdomain"], setk("x"), "generate DSA: one bit of the returned x")
+    check(lambda t: gen(t) and t["what"] == "elgamal", setk("y"), "generate ElGamal: one bit of the returned y")
+    check(lambda t: gen(t) and t["what"] == "ecc" and t["curve"] in ("P-192", "P-224", "P-256"), setk("y"), "generate ECC (%(curve)s): one bit of the returned point")
+    check(lambda t: gen(t) and t["what"] == "ecc" and t["curve"] == "Curve25519", setk("x"), "generate ECC (Curve25519): one bit of the returned u")
+    return w
+
+
+HARNESS_OK = ("untrusted",)     # self-checks that falsify a witness: TLC must refuse the witness (a "harness:" clause), never accept the record
+
+
+def run(ctx):
+    quick = ctx.tier == "quick"
+    rnd = random.Random("%d/c05" % ctx.seed)
+    t0 = time.time()
+    # 1. the pipeline on toy numbers, exhaustively; a weakened pipeline must be separated
+    r = ctx.mc("KeyPipelineMC", "KeyPipelineMC.cfg", workers=8, timeout=900)
+    cases = [json.loads(s) for s in sorted(set(tlc.tla_string_to_py(p) for p in r.prints("CASE")))]
+    if len(cases) < 25000:
+        raise core.Machinery("KeyPipelineMC emitted only %d cases" % len(cases))
+    rw = ctx.mc("KeyPipelineMC", "KeyPipelineMC_weakened.cfg", workers=4, timeout=900, must_hold=False)
+    if "Sound" not in rw.violated:
+        raise core.Machinery("the KeyPipeline model does not separate a pipeline that forgets the range check of coordinates: %s" % rw.violated)
+    ctx.extra["weakened_pipeline_rejected_by_model"] = rw.violated
+    ctx.extra["cases_from_model"] = len(cases)
+    per_class = {}
+    for c in cases:
+        k = "%s:%s" % (c["ty"], c["cls"])
+        per_class[k] = per_class.get(k, 0) + 1
+    ctx.extra["model_cases_per_type_and_class"] = dict(sorted(per_class.items()))
+    _note(t0, "model: %d cases" % len(cases))
+    # 2. concretise and record: recorder processes side by side (generate() apart: ElGamal's safe-prime search and DSA's domain search take seconds)
+    items, stats = plan_cases(cases, ctx, rnd)
+    gens = plan_generate(ctx, rnd, len(items))
+    ctx.extra["plan"] = stats
+    nproc = 12
+    slices = [[] for _ in range(nproc)]
+    for j, it in enumerate(sorted(items, key=lambda it: -it["est"])):
+        slices[j % nproc].append(it)
+    slow = [g for g in gens if g["what"] in ("elgamal", "dsa") or (g["what"] == "rsa" and g["bits"] > 2048)]
+    fast = [g for g in gens if g not in slow]
+    jobs = [("generate", {"items": [g]}) for g in slow] + [("generate", {"items": fast})] + [("cases", {"items": s}) for s in slices if s]
+    with ThreadPoolExecutor(max_workers=16) as ex:
+        parts = list(ex.map(lambda j: ctx.drive("c05_keys", [j[0]], inp=j[1], timeout=3000), jobs))
+    recs = [t for part in parts for t in part]
+    del parts
+    recs.sort(key=lambda t: t["cid"])
+    by_cid = {it["cid"]: it for it in items + gens}
+    ctx.extra["cases_not_expressible_in_their_format"] = len(items) + len(gens) - len(recs)
+    _note(t0, "recorded %d of %d items (%d generate requests)" % (len(recs), len(items) + len(gens), len(gens)))
+    # 3. TLC judges
+    verdicts = {}
+    batch = 3500
+    for b in range(0, len(recs), batch):
+        verdicts.update(ctx.validate("KeyTrace", recs[b:b + batch], family="keys (batch %d)" % (b // batch + 1), timeout=3400, weight=lambda t: t["cost"] + 5))
+    _note(t0, "judged %d records" % len(recs))
+    wanted = binding_checks(quick)
+    per, outcomes, disagree, classed, classed1, samples = {}, {}, [], 0, 0, {}
+    certified = 0
+    for t in recs:
+        ctx.count()
+        agrees, clause = verdicts[t["tid"]]
+        fam = family_of(t)
+        per[fam] = per.get(fam, 0) + 1
+        oc = "%s:%s" % (t["fam"] if t["fam"] != "ec" else t["kind"], "key" if t["exc"] == "none" else t["exc"])
+        outcomes[oc] = outcomes.get(oc, 0) + 1
+        certified += len(t.get("links", [])) + sum(len(t.get(w, {}).get(c, [])) for w in ("w", "kw") for c in ("cq", "cx"))
+        ctx.nontriv(identity(t))
+        if t["fam"] != "gen" and t["cls"] in ("key", "ValueError"):
+            classed += 1
+            if agrees == 2:
+                disagree.append({"family": fam, "form": t["form"], "corruptions": t["corr"], "model": t["cls"], "model_failed_step": t["mwhy"], "outcome": t["exc"], "tlc_verdict": clause})
+        if clause != "ok":
+            if clause.startswith("harness:"):
+                raise core.Machinery("recorder inconsistency: %s in %s" % (clause, json.dumps(brief(t))[:1500]))
+            ctx.violation(vkey(t, clause), dict(brief(t), clause=clause), replay=t)
+        for nm, pred in SAMPLES:
+            if nm not in samples and pred_ok(pred, t):
+                samples[nm] = dict(brief(t), tlc_verdict=clause)
+        if clause == "ok":
+            for w in wanted:
+                if w[3] is None and pred_ok(w[0], t):
+                    w[3] = copy.deepcopy(t)
+    ctx.extra["records_per_family"] = dict(sorted(per.items()))
+    ctx.extra["outcomes_of_the_library"] = dict(sorted(outcomes.items()))
+    ctx.extra["links_of_certified_chains"] = certified
+    ctx.extra["model_class_not_carried_over"] = {"records_with_a_model_class": classed, "differing": len(disagree), "cases": disagree[:40]}
+    # the model's class must carry over to the real numbers, up to the coincidences of the toy numbers (named in trace/KeyTrace)
+    if len(disagree) > max(3, 0.02 * classed):
+        raise core.Machinery("the classes of the model do not carry over to real keys: %d of %d differ, e.g. %s" % (len(disagree), classed, json.dumps(disagree[:5])))
+    for nm, _ in SAMPLES:
+        if nm in samples:
+            ctx.sample(samples[nm])
+    for what in ("rsa", "dsa", "elgamal", "ecc"):
+        if not any(t["fam"] == "gen" and t["what"] == what and t["exc"] == "none" for t in recs):
+            raise core.Machinery("generate() returned no %s key: nothing was judged" % what)
+    # 4. binding self-checks: a falsified returned component / outcome must be rejected by TLC (all pairs in one batch)
+    checks = []
+    for pred, corrupt, family, g in wanted:
+        if g is None:
+            if ctx.violations:
+                ctx.notes.append("binding self-check '%s' skipped: no accepted record of that shape in a run with violations" % family)
+                continue
+            raise core.Machinery("no accepted record for the binding self-check '%s'" % family)
+        checks.append((g, corrupt, family % g if "%(" in family else family))
+    pairs = []
+    for i, (g, corrupt, family) in enumerate(checks):
+        good, bad = copy.deepcopy(g), corrupt(copy.deepcopy(g))
+        good["tid"], bad["tid"] = 2 * i + 1, 2 * i + 2
+        pairs += [good, bad]
+    v, _ = tlc.validate_traces("KeyTrace", pairs, shards=min(16, len(pairs)), timeout=1500, weight=lambda t: t["cost"] + 5)
+    for i, (g, corrupt, family) in enumerate(checks):
+        gv, bv = v[2 * i + 1][1], v[2 * i + 2][1]
+        passed = gv == "ok" and bv != "ok" and (not bv.startswith("harness:") or any(h in family for h in HARNESS_OK))
+        ctx.binding_checks.append({"family": family, "original": gv, "corrupted": bv, "ok": passed})
+        if not passed:
+            raise core.Machinery("binding self-check failed for %s: original=%r corrupted=%r" % (family, gv, bv))
+    _note(t0, "%d binding self-checks" % len(checks))
+    ctx.rule = ("cases = the submitted states of sys/KeyPipeline enumerated by TLC (6 key types x toy keys x forms/formats x no, one or two ordered component corruptions), "
+                "concretised on real keys: RSA 512/768-bit fixed primes and a 1024-bit key generated per run (construct with 2, 3, 5, 6 components; PKCS#1, PKCS#8, "
+                "SubjectPublicKeyInfo, OpenSSH; DER and PEM), DSA domains of 24, 512, 1024, 2048 bits (construct; OpenSSL, PKCS#8, SPKI, OpenSSH), ElGamal 128/256-bit safe primes, "
+                "P-192..P-521 (construct with d / point / both; SEC 1 ECPrivateKey, PKCS#8, SPKI uncompressed and compressed, OpenSSH, raw SEC 1 point), Ed25519/Ed448 "
+                "(seed / point / both; PKCS#8, SPKI, OpenSSH), Curve25519/Curve448 (seed / u / both; PKCS#8, SPKI); every case with at most one corruption whose judgement needs no "
+                "long certified chain, a seed-dependent sample of the double corruptions and of the cases with a full-length scalar multiple, modular power or ladder (budget per "
+                "type, see plan); fixed anchors: neutral element, coordinates >= p, foreign Montgomery public value on every curve.  generate(): RSA / DSA (with and without "
+                "domain) / ElGamal / ECC with a deterministic randfunc tape, documented and undocumented sizes and exponents.  distinct = distinct (type, key, form, variant, offered "
+                "components); every record is a call of the library on a different input")
+    ctx.assume("'probable prime' is decided only up to: exact trial division below 2^24; otherwise no prime factor below 100, no factorisation exhibited by the recorder (the composites "
+               "it builds come with theirs) and, for the sampled records marked deep, one Miller-Rabin round to base 2 with every squaring certified. This is weaker than the statement: "
+               "a strong pseudoprime to base 2 without small factors handed out by the library would pass")
+    ctx.assume("witnesses (quotients, gcd cofactors, modular-power chains, intermediate multiples, square roots, Jacobi quotients, the recorder's factorisation of a modulus offered "
+               "without factors) are untrusted: a wrong one makes TLC answer 'witness', which is a machinery failure, never a verdict")
+    ctx.assume("the field primes and group orders of the nine curves are prime and the parameters of spec/data/ECGroup are those of FIPS 186-4 / RFC 7748 / RFC 8032 (pinned by ASSUMEd "
+               "vectors evaluated by ./check setup); the fixed DSA / ElGamal / RSA primes of the recorder were found with 40 Miller-Rabin rounds at authoring time and are judged like any others")
+    ctx.assume("permissive spots (either outcome accepted, a returned key still judged), named in sys/KeyPipeline, data/KeyInvariants and trace/KeyTrace: RsaLargeD (d >= n), "
+               "RsaUnfactoredModulus, RsaExponentSharesFactorWithModulus (public key with gcd(n, e) > 1), ImportIgnoresCrtFields, PublicValueNotInSubgroup (O8), EdSmallOrderPublic, "
+               "MtNonCanonicalU, KiEdNonCanonicalAccepted (O5), GenElGamalRefusal (ElGamal.generate documents no domain of sizes)")
+    ctx.assume("import formats are exercised unencrypted, in DER and PEM; passphrase-protected containers, X.509 certificates and OpenSSH private keys are the subject of C08 / C13")
